@@ -120,9 +120,11 @@ def gen(rng, idx, tier, seed):
                 'bounds': str(rng.choice(['off', 'off', 'derived',
                                           'explicit']))}
     fs = gen_ioapi.gen_spec(rng, via='from_arrays')
-    if rng.random() < 0.3:
+    if rng.random() < 0.4:
         fs['tstep'] = int(rng.choice([1, 100, 1500, 10000, 60000, 240000,
-                                      int(rng.integers(1, 24)) * 10000]))
+                                      int(rng.integers(1, 24)) * 10000,
+                                      250000, 480000, 1003015, 1680000,
+                                      7200000]))
     return {'mode': ['tflag', 'synth'][m - 3], 'file': fs,
             'drop_tflag': bool(rng.random() < 0.3),
             'bounds': bool(rng.random() < 0.5)}
